@@ -233,7 +233,7 @@ func TestPerAlertNameLimit(t *testing.T) {
 // TestSilenceLimits: max number and max encoded size of silences through the real API.
 func TestSilenceLimits(t *testing.T) {
 	run := vf.Cur()
-	sub := run.Sub("silence-limits", "real app with --silences.max-silences M in {2,4} and --silences.max-silence-size-bytes S in {300,600}; 12-35 POST/DELETE operations whose comment length sweeps the encoded size around S (S-60..S+60 in steps) incl. in-place and history-rewriting edits; after every step: stored silences (expired included) <= M, every stored silence's encoded size (proto.Size of the stored record) <= S, and a rejected request (4xx) leaves GET /silences byte-identical; non-trivial = >=1 rejection for size and >=1 for count; distinct by (seed)", 40)
+	sub := run.Sub("silence-limits", "real app with --silences.max-silences M in {2,4} and --silences.max-silence-size-bytes S in {300,600}; 12-35 POST/DELETE operations whose comment length sweeps the encoded size around S (S-60..S+60 in steps) incl. in-place and history-rewriting edits; after every step: stored silences (expired included) <= M, every stored silence's encoded size (proto.Size of the stored record) <= S, and a rejected request (4xx) leaves GET /silences byte-identical; in a third of the cases a second phase keeps one silence past its retention but not yet garbage-collected in the store and fills up to the limit beside it; non-trivial = >=1 rejection for size and >=1 for count; distinct by (seed)", 40)
 	n := run.N(300, 30000)
 	vf.Parallel(t, n, 16, func(t *testing.T, i int) {
 		r := sub.Rand(i)
@@ -242,6 +242,7 @@ func TestSilenceLimits(t *testing.T) {
 		dir := sysrun.ScratchDir("C18", "sil", i)
 		defer os.RemoveAll(dir)
 		synctest.Test(t, func(t *testing.T) {
+			t0 := time.Now()
 			in, err := sim.Start(sim.Options{ConfigYAML: simpleConfig().YAML(), Dir: dir, MaxSilences: M, MaxSilenceSizeBytes: S, Retention: time.Hour})
 			if err != nil {
 				t.Fatal(err)
@@ -329,6 +330,41 @@ func TestSilenceLimits(t *testing.T) {
 					if sz := proto.Size(rec); sz > S {
 						fail("stored-silence-larger-than-the-size-limit", map[string]any{"id": sl.Id, "encoded_size": sz})
 						return
+					}
+				}
+			}
+			// phase 2: "stored silences (expired ones included)": a silence past its retention that the next
+			// garbage collection (every 15 min) has not removed yet still occupies a slot
+			if i%3 == 0 {
+				time.Sleep(3 * time.Hour) // everything from phase 1 has ended, passed retention and been collected
+				if left, _, _ := in.VI.Silences.Query(context.Background()); len(left) == 0 {
+					// align to one second after a GC tick (ticks are every 15 min from the instance's start)
+					el := time.Since(t0)
+					time.Sleep(15*time.Minute - el%(15*time.Minute) + time.Second)
+					mk := func(k int) sim.PostableSilence {
+						n := time.Now()
+						return sim.PostableSilence{Matchers: sim.APIMatchers([]model.Matcher{{Name: "alertname", Op: "=", Value: fmt.Sprintf("P%d", k)}}), StartsAt: n, EndsAt: n.Add(30 * time.Minute), CreatedBy: "verif", Comment: "p2"}
+					}
+					c0, x, _ := in.PostSilence(mk(0))
+					steps = append(steps, fmt.Sprintf("phase 2: create %s -> %d (ends after 30 min), then 1h30m30s pass (retention 1h; the last GC ran 1 s before its retention ended)", x, c0))
+					time.Sleep(90*time.Minute + 30*time.Second)
+					accepted := 0
+					for k := 1; k <= M+1; k++ {
+						code, _, _ := in.PostSilence(mk(k))
+						steps = append(steps, fmt.Sprintf("phase 2: create #%d -> %d", k, code))
+						if code == 200 {
+							accepted++
+						}
+						time.Sleep(time.Second)
+						sils, _, _ := in.VI.Silences.Query(context.Background())
+						if len(sils) > M {
+							fail("more-silences-stored-than-the-limit", map[string]any{"stored": len(sils), "note": "one of them is past its retention but not yet collected"})
+							return
+						}
+					}
+					sub.Count("phase2_creates_accepted_beside_an_uncollected_silence", int64(accepted))
+					if i == 0 && os.Getenv("DBG_P2") != "" {
+						fmt.Println("PHASE2", M, steps[len(steps)-M-2:])
 					}
 				}
 			}
@@ -477,7 +513,7 @@ func getLimitWithTimeout(sub *vf.Sub, C, round int) bool {
 // TestGetConcurrencyLimit: deterministic, no wall clock decides.
 func TestGetConcurrencyLimit(t *testing.T) {
 	run := vf.Cur()
-	sub := run.Sub("get-concurrency", "real app with GET concurrency limit C in {1,2,3,5}: C GET requests are held in flight by response writers that block until released; every further GET (alerts, groups, silences, status) must be refused with 503 and counted by alertmanager_http_concurrency_limit_exceeded_total, POSTs of alerts and silences must succeed meanwhile, the in-flight gauge must read C, and after release all held requests complete with 200 and the gauge returns to 0; the same with a web timeout configured (requests behind http.TimeoutHandler; GETs of /silences held inside the handler by a blocked gossip callback); also run with real parallel requests under the race detector; non-trivial = every case; distinct by (C, round)", 8)
+	sub := run.Sub("get-concurrency", "real app with GET concurrency limit C in {1,2,3,5}: C GET requests are held in flight by response writers that block until released; every further GET (API routes and /-/healthy, /-/ready, /metrics alike: one pool) must be refused with 503 and counted by alertmanager_http_concurrency_limit_exceeded_total, POSTs of alerts and silences must succeed meanwhile, the in-flight gauge must read C, and after release all held requests complete with 200 and the gauge returns to 0; the same with a web timeout configured (requests behind http.TimeoutHandler; GETs of /silences held inside the handler by a blocked gossip callback); also run with real parallel requests under the race detector; non-trivial = every case; distinct by (C, round)", 8)
 	for _, C := range []int{1, 2, 3, 5} {
 		for round := 0; round < run.N(4, 200)/4+1; round++ {
 			dir := sysrun.ScratchDir("C18", "conc", C*1000+round)
@@ -488,7 +524,11 @@ func TestGetConcurrencyLimit(t *testing.T) {
 			gate := make(chan struct{})
 			var held []*blockingWriter
 			var wg sync.WaitGroup
-			paths := []string{"/api/v2/alerts", "/api/v2/alerts/groups", "/api/v2/silences", "/api/v2/status"}
+			// the limit is one pool for every GET the server answers: API and non-API routes alike
+			paths := []string{"/api/v2/alerts", "/-/healthy", "/api/v2/silences", "/metrics", "/api/v2/alerts/groups", "/-/ready", "/api/v2/status"}
+			if round%2 == 1 {
+				paths = []string{"/-/healthy", "/api/v2/status", "/metrics", "/api/v2/alerts", "/-/ready", "/api/v2/silences", "/api/v2/alerts/groups"}
+			}
 			for k := 0; k < C; k++ {
 				bw := &blockingWriter{ResponseRecorder: httptest.NewRecorder(), gate: gate, entered: make(chan struct{})}
 				held = append(held, bw)
